@@ -133,6 +133,15 @@ func c16Timeout(args []string, _ []byte) string {
 		if !strings.Contains(req.Err().Error(), "timed out") {
 			return fmt.Sprintf("FAIL: request failed with %q, want a timeout error", req.Err())
 		}
+		// the peer's answer arrives after all: late pages and the late final response must be handled without a panic
+		// (they may be refused); the request stays failed
+		for p := 1; p <= 5; p++ {
+			_ = h.Deliver(pageFrame(id, int32(spec.Pages+p), false))
+		}
+		_ = h.Deliver(pageFrame(id, int32(spec.Pages+6), true))
+		if !req.IsDone() || req.Err() == nil {
+			return fmt.Sprintf("FAIL: late responses revived a timed-out request: IsDone=%v Err=%v", req.IsDone(), req.Err())
+		}
 	}
 	h.Close() // must not panic (e.g. closing an already closed channel)
 	time.Sleep(20 * time.Millisecond)
